@@ -294,18 +294,40 @@ theorem unitExpr_pos (tbl : Table α) (fns : List (FnDef α)) (glob : List (PVal
   | tail _ _ => intro hu; simp [PExpr.isUnitExpr] at hu
   | cons _ _ _ _ => intro hu; simp [PExpr.isUnitExpr] at hu
   | len _ _ => intro hu; simp [PExpr.isUnitExpr] at hu
+  | mk _ _ => intro hu; simp [PExpr.isUnitExpr] at hu
+  | get _ _ _ => intro hu; simp [PExpr.isUnitExpr] at hu
 
 theorem vok_dim {tbl : Table α} {v : PVal α} {d : DimV} (h : VOK tbl v (.dim d)) : ∃ x, v = .q x ∧ ValOK tbl x d := by
   cases v with
   | q x => exact ⟨x, rfl, by simpa [VOK] using h⟩
   | b _ => simp [VOK] at h
   | list _ => simp [VOK] at h
+  | struct _ => simp [VOK] at h
 
 theorem vok_bool {tbl : Table α} {v : PVal α} (h : VOK tbl v .bool) : ∃ x, v = .b x := by
   cases v with
   | q _ => simp [VOK] at h
   | b x => exact ⟨x, rfl⟩
   | list _ => simp [VOK] at h
+  | struct _ => simp [VOK] at h
+
+theorem vok_struct {tbl : Table α} {v : PVal α} {ts : List PTy} (h : VOK tbl v (.struct ts)) :
+    ∃ vs, v = .struct vs ∧ EnvOK tbl vs ts := by
+  cases v with
+  | q _ => simp [VOK] at h
+  | b _ => simp [VOK] at h
+  | list _ => simp [VOK] at h
+  | struct vs => exact ⟨vs, rfl, by simpa [VOK] using h⟩
+
+theorem envOK_reverse (tbl : Table α) : ∀ (vs : List (PVal α)) (ts : List PTy), EnvOK tbl vs ts →
+    EnvOK tbl vs.reverse ts.reverse
+  | [], [], _ => by simp [EnvOK]
+  | [], _ :: _, h => by simp [EnvOK] at h
+  | _ :: _, [], h => by simp [EnvOK] at h
+  | v :: vs, t :: ts, h => by
+    simp only [EnvOK] at h
+    simp only [List.reverse_cons]
+    exact envOK_snoc tbl _ _ (envOK_reverse tbl vs ts h.2) v t h.1
 
 theorem vok_list {tbl : Table α} {v : PVal α} {t : PTy} (h : VOK tbl v (.list t)) :
     ∃ vs, v = .list vs ∧ VOKAll tbl vs t := by
@@ -313,6 +335,7 @@ theorem vok_list {tbl : Table α} {v : PVal α} {t : PTy} (h : VOK tbl v (.list 
   | q _ => simp [VOK] at h
   | b _ => simp [VOK] at h
   | list vs => exact ⟨vs, rfl, by simpa [VOK] using h⟩
+  | struct _ => simp [VOK] at h
 
 /-- values that agree position by position with copies of one type all agree with that type -/
 theorem vokAll_of_envOK (tbl : Table α) (t : PTy) : ∀ (vs : List (PVal α)) (ts : List PTy),
@@ -714,6 +737,22 @@ theorem expr_soundness (tbl : Table α) (hc : ConvComplete tbl) (fns : List (FnD
             left; exact ⟨.list (v :: vs), rfl, by simp only [VOK, VOKAll]; exact ⟨hvok, hall⟩⟩
           · right; rcases he with h | h | h <;> (rw [h]; unfold Bad; simp)
         · right; rcases he with h | h | h <;> (rw [h]; unfold Bad; simp)
+      | @mk fields ts hall hf =>
+        simp only [evalP]
+        rcases ihA S₀ Γ₀ L loc fields ts hS hΓ hloc hf with ⟨vs, hvs, hvsok⟩ | he
+        · rw [hvs]
+          left; exact ⟨.struct vs.reverse, rfl, by simp only [VOK]; exact envOK_reverse tbl vs ts hvsok⟩
+        · right; rcases he with h | h | h <;> (rw [h]; unfold Bad; simp)
+      | @get e' ts i _ htv hall hi he' =>
+        simp only [evalP]
+        rcases IH e' _ he' (by simpa [PTy.isVal] using hall) with ⟨v, hv, hvok⟩ | hbad
+        · obtain ⟨vs, hx, hok⟩ := vok_struct hvok
+          subst hx
+          rw [hv]
+          obtain ⟨w, hw, hwok⟩ := envOK_get tbl vs ts hok i t hi
+          simp only [hw]
+          left; exact ⟨w, rfl, hwok⟩
+        · right; rcases hbad with h | h | h <;> (rw [h]; unfold Bad; simp)
       | @len l t' htv hl =>
         simp only [evalP]
         rcases IH l _ hl (by simpa [PTy.isVal] using htv) with ⟨v, hv, hvok⟩ | he
@@ -774,6 +813,8 @@ theorem expr_soundness (tbl : Table α) (hc : ConvComplete tbl) (fns : List (FnD
       | tail _ => cases hteq
       | cons _ _ => cases hteq
       | len _ _ => cases hteq
+      | mk _ _ => cases hteq
+      | @get e' ts i _ htv _ _ _ => subst hteq; simp [PTy.isVal] at htv
 
 /-- the invariant of a session of the fragment: globals agree with their types, functions were checked -/
 def StateOK (tbl : Table α) (st : PState α) (S : List FnSig) (Γ : List GTy) : Prop :=
@@ -929,5 +970,19 @@ example (tbl : Table α) (u : Factor) :
     refine .lst (ts := [.dim (unitVec tbl [u]), .dim (unitVec tbl [u]), .dim (unitVec tbl [u])]) (.dim (unitVec tbl [u])) rfl
       (by intro x hx; simp at hx; exact hx) ?_
     exact .arg rfl (.unit u) (.arg rfl (.num zero _ (Or.inr hz)) (.arg rfl (.unit u) .noarg))
+
+/-- non-vacuity for structs: `struct S { a: D, b: Bool }`, `let p = S { b: true, a: 1 u }`, `let x = p.a` — the
+fields are evaluated in the reverse of the definition order (`b` first), the value lists them in definition order -/
+example (tbl : Table α) (u : Factor) :
+    ProgOK tbl [] []
+      [.letv (.mk (.arg (.blit true) (.arg (.unit u) .noarg))), .letv (.get (.var 0) 0)]
+      [] [fun t => t = .struct [.dim (unitVec tbl [u]), .bool], fun t => t = .dim (unitVec tbl [u])] := by
+  refine .letv (fun t => t = .struct [.dim (unitVec tbl [u]), .bool]) ⟨_, rfl⟩ ?_
+    (.letv (fun t => t = .dim (unitVec tbl [u])) ⟨_, rfl⟩ ?_ (.nil _ _))
+  · rintro t rfl
+    refine ⟨rfl, ?_⟩
+    exact .mk (ts := [.bool, .dim (unitVec tbl [u])]) rfl (.arg rfl (.blit true) (.arg rfl (.unit u) .noarg))
+  · rintro t rfl
+    exact ⟨rfl, .get (ts := [.dim (unitVec tbl [u]), .bool]) 0 _ rfl rfl rfl (.var 0 _ _ rfl rfl)⟩
 
 end NumbatModel.Qty
